@@ -138,6 +138,9 @@ class Natives(object):
             ty = v.ty
             if ty == 'MutexGuard':
                 mu = v.f['m']
+                vis = m.load(mu.proj(('f', 'vis')), gg)
+                if vis is TRUE:
+                    out.append((x, s.fn_unlock_visible, [mu], 'unlock')); return
                 if m.debug: m.stats.setdefault('lockers', {}).pop(repr(mu), None)
                 m.store(mu.proj(('f', 'locked')), FALSE, gg)
                 if m.unwind_mode and getattr(th, 'unwinding', FALSE) is not FALSE:
@@ -356,7 +359,10 @@ class Natives(object):
             return ptr_eq(x.f['p'], y.f['p'])
         R('Arc::ptr_eq', arc_ptr_eq)
         # ---- Mutex / Condvar
-        R('Mutex::new', lambda m, th, a, g: St('Mutex', {'locked': FALSE, 'poison': FALSE, 'data': a[0]}))
+        # unlocking a mutex that other threads try_lock is not a left-mover (a failed try_lock does not commute with it), so it
+        # must be a scheduling point of its own.  desync only try_locks the pool threads' `busy: Mutex<bool>`; every
+        # Mutex<bool> unlock is made visible (model and shim use the same rule).
+        R('Mutex::new', lambda m, th, a, g: St('Mutex', {'locked': FALSE, 'poison': FALSE, 'data': a[0], 'vis': BoolC(isinstance(a[0], E) and a[0].sort == 'B')}))
         def lock_en(m, th, a, ph, g):
             l = m.load(m.typed_ref(a[0], g, ('Mutex',)).proj(('f', 'locked')), g)
             return Not(l) if isinstance(l, E) else FALSE
@@ -375,6 +381,9 @@ class Natives(object):
             m.store(mu.proj(('f', 'locked')), TRUE, And(g, Not(l)))
             return En(RES, Ite(l, ONE, ZERO), {0: St(None, {0: St('MutexGuard', {'m': mu})}), 1: St(None, {0: En(TLE, ONE, {})})})
         R('Mutex::try_lock', try_lock, visible=True)
+        def mutex_unlock(m, th, a, g):
+            m.store(a[0].proj(('f', 'locked')), FALSE, g); return UNIT
+        R('__mutex_unlock', mutex_unlock, visible=True)
         def guard_deref(m, th, a, g):
             gd = m.load_typed(a[0], g, ('MutexGuard',))
             if not isinstance(gd, St) or 'm' not in gd.f: return Ref([])
@@ -628,6 +637,11 @@ class Natives(object):
         c1 = mp.Blk(); c1.term = ('return',)
         f2.blocks = {'bb0': c0, 'bb1': c1}
         s.prog.add_fn(f2); s.fn_drop_value = f2
+        fu = mp.Fn('__unlock_visible_fn', '__unlock_visible_fn'); fu.params = ['&Mutex']; fu.origin = 'glue'
+        u0 = mp.Blk(); u0.term = ('call', ('local', 2), '__mutex_unlock', [('copy', ('local', 1))], 'bb1', None)
+        u1 = mp.Blk(); u1.term = ('return',)
+        fu.blocks = {'bb0': u0, 'bb1': u1}
+        s.prog.add_fn(fu); s.fn_unlock_visible = fu
         # box content drop followed by freeing the allocation: bb0: drop(*_1) -> bb1; bb1: __box_free(_1) -> bb2; bb2: return
         f3 = mp.Fn('__box_free_fn', '__box_free_fn'); f3.params = ['*mut T']; f3.origin = 'glue'
         d0 = mp.Blk(); d0.term = ('drop', ('deref', ('local', 1)), 'bb1', None)
